@@ -191,11 +191,12 @@ Proof.
     cbn [length]. rewrite !app_length. unfold compose_prefix_without_len. rewrite firstn_length. fix_pos.
   - (* route target *)
     apply andb_true_iff in Hwf as [_ Hsz]. apply Nat.leb_le in Hsz.
-    cbn [compose_body] in Hc. unfold sat_u8 in Hc.
-    replace (Nat.ltb 255 (8 * length raw)) with false in Hc by (symmetry; apply Nat.ltb_ge; lia).
-    injection Hc as <-. destruct k; try discriminate.
+    cbn [compose_body] in Hc. injection Hc as <-. destruct k; try discriminate.
     cbn [parse_body app parse_u8 p_rest p_pos bind]. rewrite Nat2N.id.
-    rewrite take_app' by (unfold prefix_bits_to_bytes; lia). cbn [bind length]. fix_pos.
+    (* 32 octets are written with the saturated length octet 255, which reads back as 32 octets *)
+    assert (Hb : prefix_bits_to_bytes (sat_u8 (8 * length raw)) = length raw).
+    { unfold prefix_bits_to_bytes, sat_u8. destruct (Nat.ltb 255 (8 * length raw)) eqn:E; [apply Nat.ltb_lt in E|apply Nat.ltb_ge in E]; lia. }
+    rewrite Hb. rewrite take_app' by reflexivity. cbn [bind length]. fix_pos.
   - (* flowspec *)
     apply andb_true_iff in Hwf as [Hwf Hcomp]. apply andb_true_iff in Hwf as [_ Hsz]. apply Nat.leb_le in Hsz.
     assert (E : forall p, parse_body k p =
